@@ -200,7 +200,7 @@ func check(c Case, o *pbt.Obs) *pbt.Failure {
 	var db *badger.DB
 	hugePayloads = c.Disk
 	if c.Disk {
-		dir, err := os.MkdirTemp("", "c06disk")
+		dir, err := os.MkdirTemp(".", "c06disk") // (the job's scratch directory: the driver removes it with whatever a killed worker left)
 		if err != nil {
 			panic(err)
 		}
